@@ -56,6 +56,7 @@ var (
 	kCapMB   = flag.Int("kcapmb", 48, "heap cap for texts flagged k, MB")
 	from     = flag.Int("from", 0, "worker: first line")
 	to       = flag.Int("to", -1, "worker: one past the last line")
+	offFlag  = flag.Int64("off", 0, "worker: byte offset of line -from")
 	index    = flag.Int("index", 0, "dumpsrc: line")
 	noConf   = flag.Bool("noconfirm", false, "do not re-run non-ok results")
 	sampleN  = flag.Int("sample", 0, "indent: about this many rows that agree with the expectation are written out too")
@@ -70,26 +71,38 @@ func die(format string, a ...interface{}) {
 	os.Exit(2)
 }
 
-func readLines(path string) [][]byte {
+// readLines reads the lines [first, first+count) of the file (count < 0: all
+// of them), starting at byte offset off, which must be where line `first`
+// begins.  Every line, also an empty one, counts.  offs[i] is the byte offset
+// of line first+i.
+func readLines(path string, off int64, count int) (lines [][]byte, offs []int64) {
 	f, err := os.Open(path)
 	if err != nil {
 		die("%v", err)
 	}
 	defer f.Close()
-	var lines [][]byte
-	sc := bufio.NewScanner(f)
-	sc.Buffer(make([]byte, 1<<20), 1<<28)
-	for sc.Scan() {
-		b := sc.Bytes()
-		if len(b) == 0 {
-			continue
+	if off > 0 {
+		if _, err := f.Seek(off, 0); err != nil {
+			die("%v", err)
 		}
-		lines = append(lines, append([]byte(nil), b...))
 	}
-	if err := sc.Err(); err != nil {
-		die("%v", err)
+	r := bufio.NewReaderSize(f, 1<<20)
+	pos := off
+	for count < 0 || len(lines) < count {
+		b, err := r.ReadBytes('\n')
+		if len(b) > 0 {
+			offs = append(offs, pos)
+			pos += int64(len(b))
+			if b[len(b)-1] == '\n' {
+				b = b[:len(b)-1]
+			}
+			lines = append(lines, b)
+		}
+		if err != nil {
+			break
+		}
 	}
-	return lines
+	return lines, offs
 }
 
 func main() {
@@ -100,7 +113,7 @@ func main() {
 	case "worker":
 		worker()
 	case "dumpsrc":
-		lines := readLines(*inPath)
+		lines, _ := readLines(*inPath, 0, -1)
 		if *index < 0 || *index >= len(lines) {
 			die("no line %d", *index)
 		}
@@ -141,13 +154,13 @@ type reply struct {
 
 // runWorker runs a worker over lines [a, b) and returns its replies (in
 // order; fewer than b-a when the worker ended early).
-func runWorker(k string, a, b int, budget, capmb, kbudget, kcapmb int) []reply {
+func runWorker(k string, a, b int, off int64, budget, capmb, kbudget, kcapmb int) []reply {
 	self, err := os.Executable()
 	if err != nil {
 		die("%v", err)
 	}
 	cmd := exec.Command(self, "-mode", "worker", "-kind", k, "-in", *inPath,
-		"-from", strconv.Itoa(a), "-to", strconv.Itoa(b),
+		"-from", strconv.Itoa(a), "-to", strconv.Itoa(b), "-off", strconv.FormatInt(off, 10),
 		"-budget", strconv.Itoa(budget), "-capmb", strconv.Itoa(capmb),
 		"-kbudget", strconv.Itoa(kbudget), "-kcapmb", strconv.Itoa(kcapmb),
 		"-sample", strconv.Itoa(*sampleN), "-seed", strconv.Itoa(*seed), "-total", strconv.Itoa(*total),
@@ -176,7 +189,7 @@ func runWorker(k string, a, b int, budget, capmb, kbudget, kcapmb int) []reply {
 }
 
 func parent(k string) {
-	lines := readLines(*inPath)
+	lines, offs := readLines(*inPath, 0, -1)
 	n := len(lines)
 	*total = n
 	flagged := make([]bool, n)
@@ -198,86 +211,106 @@ func parent(k string) {
 	if j < 1 {
 		j = 1
 	}
-	per := (n + j - 1) / j
-	for w := 0; w < j; w++ {
-		a, b := w*per, (w+1)*per
+	// Blocks of lines are handed out dynamically: slow items (watchdog
+	// budgets) cluster, e.g. the longest texts come last.
+	per := n / (j * 6)
+	if per < 32 {
+		per = 32
+	}
+	var qmu sync.Mutex
+	nextBlock := 0
+	take := func() (int, int) {
+		qmu.Lock()
+		defer qmu.Unlock()
+		a := nextBlock
+		if a >= n {
+			return n, n
+		}
+		b := a + per
 		if b > n {
 			b = n
 		}
-		if a >= b {
-			continue
-		}
+		nextBlock = b
+		return a, b
+	}
+	for w := 0; w < j; w++ {
 		wg.Add(1)
-		go func(a, b int) {
+		go func() {
 			defer wg.Done()
-			for a < b {
-				rs := runWorker(k, a, b, *budgetMs, *capMB, *kBudget, *kCapMB)
-				next := a
-				for _, r := range rs {
-					if r.I != next {
-						die("worker replied for %d, expected %d", r.I, next)
-					}
-					row := r.R
-					if r.Chg {
-						mu.Lock()
-						stats.Chg++
-						mu.Unlock()
-					}
-					if k == "wuffs" {
-						mu.Lock()
-						for _, p := range r.Pairs {
-							pairs[p] = true
+			for {
+				a, b := take()
+				if a >= b {
+					return
+				}
+				for a < b {
+					rs := runWorker(k, a, b, offs[a], *budgetMs, *capMB, *kBudget, *kCapMB)
+					next := a
+					for _, r := range rs {
+						if r.I != next {
+							die("worker replied for %d, expected %d", r.I, next)
 						}
-						for _, p := range r.Triples {
-							triples[p] = true
+						row := r.R
+						if r.Chg {
+							mu.Lock()
+							stats.Chg++
+							mu.Unlock()
 						}
-						if r.Acc {
-							stats.Acc++
-							stats.Toks += r.Toks
+						if k == "wuffs" {
+							mu.Lock()
+							for _, p := range r.Pairs {
+								pairs[p] = true
+							}
+							for _, p := range r.Triples {
+								triples[p] = true
+							}
+							if r.Acc {
+								stats.Acc++
+								stats.Toks += r.Toks
+							}
+							if r.Tok {
+								stats.Tok++
+							}
+							mu.Unlock()
 						}
-						if r.Tok {
-							stats.Tok++
+						if r.Fine {
+							next++
+							continue
 						}
-						mu.Unlock()
-					}
-					if r.Fine {
+						if r.Bad && !flagged[r.I] && !*noConf {
+							// second opinion: fresh process, 4x budget, 4x cap
+							c := runWorker(k, r.I, r.I+1, offs[r.I], 4**budgetMs, 4**capMB, 4**budgetMs, 4**capMB)
+							mu.Lock()
+							if len(c) == 1 && c[0].Bad {
+								stats.Confirmed++
+								row = c[0].R
+							} else if len(c) == 1 {
+								stats.Flaky++
+								row = c[0].R
+							} else {
+								stats.Died++
+							}
+							mu.Unlock()
+						}
+						rows[r.I] = row
 						next++
-						continue
 					}
-					if r.Bad && !flagged[r.I] && !*noConf {
-						// second opinion: fresh process, 4x budget, 4x cap
-						c := runWorker(k, r.I, r.I+1, 4**budgetMs, 4**capMB, 4**budgetMs, 4**capMB)
+					if next < b {
 						mu.Lock()
-						if len(c) == 1 && c[0].Bad {
-							stats.Confirmed++
-							row = c[0].R
-						} else if len(c) == 1 {
-							stats.Flaky++
-							row = c[0].R
-						} else {
+						stats.Restarts++
+						mu.Unlock()
+						if next == a && len(rs) == 0 {
+							// the worker died without a word on line `a` (killed?)
+							rows[a] = json.RawMessage(`{"died":true}`)
+							mu.Lock()
 							stats.Died++
+							mu.Unlock()
+							next = a + 1
 						}
-						mu.Unlock()
 					}
-					rows[r.I] = row
-					next++
+					a = next
 				}
-				if next < b {
-					mu.Lock()
-					stats.Restarts++
-					mu.Unlock()
-					if next == a && len(rs) == 0 {
-						// the worker died without a word on line `a` (killed?)
-						rows[a] = json.RawMessage(`{"died":true}`)
-						mu.Lock()
-						stats.Died++
-						mu.Unlock()
-						next = a + 1
-					}
-				}
-				a = next
 			}
-		}(a, b)
+		}()
 	}
 	wg.Wait()
 	stats.Rows = n
